@@ -161,3 +161,21 @@ def seed_int(seed):
     """a deterministic 32-bit integer derived from any seed (for RandomState twins and harness-side choices)"""
     import zlib
     return seed % 2**32 if isinstance(seed, int) else zlib.crc32(repr(seed).encode())
+
+
+# ---- class filter shared by the oracles that serve several properties (core_runs, strat_runs, and the modules used as
+# "extra" sources): a property names the violation classes it is responsible for; a violation of another class must
+# not end the oracle early and hide a later one of an allowed class, so every return site goes through emit() ----
+ALLOW = [None]
+
+
+def class_allowed(cls, allowed):
+    suffix = cls.split(":", 1)[1] if ":" in cls else cls
+    return suffix in allowed or suffix.split(":")[0] in allowed or suffix in ("raises", "harness-exception")
+
+
+def emit(v):
+    """v: a violation dict or None; returns it unless a class filter is active and excludes it"""
+    if v is None or ALLOW[0] is None:
+        return v
+    return v if class_allowed(v["cls"], ALLOW[0]) else None
